@@ -75,6 +75,9 @@ pub fn key_table(u: i64, dmax: i64, advmax: i64, w: &[u32; 8]) -> Vec<OpSpec> {
         spec(w[5], K_ADV, &[0..=advmax]),
         spec(w[6], K_CLEAR, &[0..=advmax + 1]),
         spec(w[7], K_ISEMPTY, &[]),
+        // big universes: now and then a mass expiry and a burst of queries that lazily removes it
+        spec(if dmax >= 100 { 1 } else { 0 }, K_ADV, &[dmax / 2..=dmax]),
+        spec(if dmax >= 100 && w[1] + w[2] + w[4] > 0 { 1 } else { 0 }, K_DRAIN, &[32..=400]),
     ]
 }
 
@@ -110,11 +113,16 @@ pub fn key_cases(prop: &'static str, mix: KeyMix) -> BoxedStrategy<Case> {
 
 /// prefix / clear / suffix shape for C12
 pub fn key_clear_cases(prop: &'static str, coll: &'static str, us: Vec<i64>, dmax: i64, advmax: i64) -> BoxedStrategy<Case> {
+    key_clear_cases_sized(prop, coll, us, dmax, advmax, 0..=24)
+}
+
+pub fn key_clear_cases_sized(prop: &'static str, coll: &'static str, us: Vec<i64>, dmax: i64, advmax: i64, prefix: RangeInclusive<usize>) -> BoxedStrategy<Case> {
     (pick(&us), pick(CAPS))
         .prop_flat_map(move |(u, cap)| {
             let pre = key_table(u, dmax, advmax, &[40, 6, 6, 6, 6, 25, 0, 2]);
             let suf = key_table(u, dmax, advmax, &[30, 10, 10, 10, 14, 16, 2, 4]);
-            (ops_strategy(&pre, 0..=24), 0..=advmax + 1, ops_strategy(&suf, 0..=30), prop::option::weighted(0.5, 0..=dmax + 1)).prop_map(move |(a, c0, b, fin)| {
+            let suffix_len = if *prefix.end() > 24 { 500 } else { 30 };
+            (ops_strategy(&pre, prefix.clone()), 0..=advmax + 1, ops_strategy(&suf, 0..=suffix_len), prop::option::weighted(0.5, 0..=dmax + 1)).prop_map(move |(a, c0, b, fin)| {
                 let mut c = Case::new(prop, "key");
                 c.set("coll", coll).set("cap", cap).set("U", u);
                 c.ops = a;
@@ -204,12 +212,17 @@ pub fn ord_cases(prop: &'static str, mix: OrdMix) -> BoxedStrategy<Case> {
 }
 
 pub fn ord_clear_cases(prop: &'static str, family: &'static str, coll: &'static str, vals: Vec<&'static str>, us: Vec<i64>) -> BoxedStrategy<Case> {
+    ord_clear_cases_sized(prop, family, coll, vals, us, 0..=30)
+}
+
+pub fn ord_clear_cases_sized(prop: &'static str, family: &'static str, coll: &'static str, vals: Vec<&'static str>, us: Vec<i64>, prefix: RangeInclusive<usize>) -> BoxedStrategy<Case> {
     (pick(&us), pick(CAPS), pick(&vals))
         .prop_flat_map(move |(u, cap, val)| {
             let steps = if family == "set" { 6 } else { 0 };
             let pre = ord_table(u, &[50, 10, 4, 1, 0, 2, 2, 2, 0, 0]);
             let suf = ord_table(u, &[30, 10, 20, 4, 2, 10, 6, 4, steps, steps / 3]);
-            (ops_strategy(&pre, 0..=30), ops_strategy(&suf, 0..=30)).prop_map(move |(a, b)| {
+            let suffix_len = if *prefix.end() > 30 { 500 } else { 30 };
+            (ops_strategy(&pre, prefix.clone()), ops_strategy(&suf, 0..=suffix_len)).prop_map(move |(a, b)| {
                 let mut c = Case::new(prop, family);
                 c.set("coll", coll).set("val", val).set("cap", cap).set("U", u);
                 c.ops = a;
